@@ -37,7 +37,9 @@ def roundtrip_case(sig, vals, off, le):
     want = W.encode(sig, vals, off, le)
     tx_vals = [to_tx(ct, v) for ct, v in zip(cts, vals)]
     try:
-        n, chunks = marshal.marshal(sig, tx_vals, off, le)
+        n, chunks = with_alarm(20, lambda: marshal.marshal(sig, tx_vals, off, le))
+    except Timeout:
+        return 'marshal(%r, %r, %d, le=%s) did not return within 20 s' % (sig, vals, off, le)
     except Exception as e:
         return 'marshal(%r, %r, %d, le=%s) raised %s: %s' % (sig, vals, off, le, type(e).__name__, e)
     got = b''.join(chunks)
@@ -47,7 +49,9 @@ def roundtrip_case(sig, vals, off, le):
     prefix = b'\xaa' * off
     for label, data in (('spec bytes', prefix + want + b'\xbb\xbb'), ('own bytes', prefix + got)):
         try:
-            m, out = marshal.unmarshal(sig, data, off, le)
+            m, out = with_alarm(20, lambda: marshal.unmarshal(sig, data, off, le))
+        except Timeout:
+            return 'unmarshal(%r, %s at %d, le=%s) did not return within 20 s' % (sig, label, off, le)
         except Exception as e:
             return 'unmarshal(%r, %s at %d, le=%s) raised %s: %s' % (sig, label, off, le, type(e).__name__, e)
         if m != len(want) or not W.same(out, canon):
